@@ -1,3 +1,183 @@
-From ZV Require Import Lib.Base Model.Truncate.
-Theorem C22_placeholder : True. Proof. exact I. Qed.
-Print Assumptions C22_placeholder.
+(** C22 — display limits return the top of the ranked result.
+    Model: Model/Truncate.v (index/limit.go, SortFiles/boostNovelExtension, search/aggregate.go).
+    Proofs: Proofs/Truncate.v. *)
+From ZV Require Import Lib.Base Model.Truncate Proofs.Truncate.
+
+(** ---- 1. One DisplayTruncator call (SortAndTruncateFiles after SortFiles; Search's final step).
+    For every option set and every ranked result list [fs] on which the truncator does not panic:
+    - the flattened matches of the result are exactly the first MaxMatchDisplayCount matches of the
+      first MaxDocDisplayCount files of [fs] (limits <= 0 meaning "no limit"),
+    - structurally the result is [fs]'s leading files, unchanged, except that the last kept file may
+      keep only its leading line/chunk matches, the last of which keeps its leading fragments/ranges,
+    - the counts are bounded by the limits,
+    - truncating again changes nothing. *)
+Theorem C22_truncate_is_prefix : forall o fs res,
+  truncate o fs = Ok res ->
+  flat (o_chunk o) res = mlimit o (flat (o_chunk o) (dlimit o fs)) /\
+  lprefix (file_cut (o_chunk o)) res fs.
+Proof. intros o fs res H. destruct (truncate_spec o fs res H) as (A & B & _). auto. Qed.
+Print Assumptions C22_truncate_is_prefix.
+
+Theorem C22_counts_bounded : forall o fs res,
+  truncate o fs = Ok res ->
+  (doc_limited o = true -> length res <= Z.to_nat (o_doc o)) /\
+  (match_limited o = true -> total (o_chunk o) res <= Z.to_nat (o_match o)).
+Proof. intros o fs res H. destruct (truncate_spec o fs res H) as (_ & _ & A & B & _). auto. Qed.
+Print Assumptions C22_counts_bounded.
+
+Theorem C22_truncate_idempotent : forall o fs res,
+  truncate o fs = Ok res -> truncate o res = Ok res.
+Proof. intros o fs res H. now destruct (truncate_spec o fs res H) as (_ & _ & _ & _ & _ & A). Qed.
+Print Assumptions C22_truncate_idempotent.
+
+(** line mode never panics (chunk mode can: log.Panicf on Content with too few newlines) *)
+Theorem C22_line_mode_total : forall o fs,
+  o_chunk o = false -> exists res, truncate o fs = Ok res.
+Proof.
+  intros o fs Hc. rewrite truncate_unfold. destruct (match_limited o); [|eauto].
+  assert (T : forall l n, exists r, limit_matches false l n = Ok r).
+  { induction l as [|f l IH]; intros n; simpl; [eauto|].
+    unfold limit_file. destruct (limit_lines (f_lines f) n) as [ls lim]. simpl.
+    destruct (lim =? 0); [eauto|]. destruct (IH lim) as [r ->]. simpl. eauto. }
+  rewrite Hc. destruct (T (dlimit o fs) (Z.to_nat (o_match o))) as [r ->]. simpl. eauto.
+Qed.
+Print Assumptions C22_line_mode_total.
+
+(** ---- 2. The ranked-and-limited result is the beginning of the unlimited ranked result *)
+Theorem C22_limited_is_top_of_ranked : forall o fs res,
+  sort_and_truncate o fs = Ok res ->
+  flat (o_chunk o) res = mlimit o (flat (o_chunk o) (dlimit o (sort_files fs))) /\
+  lprefix (file_cut (o_chunk o)) res (sort_files fs).
+Proof. intros o fs res H. apply C22_truncate_is_prefix. exact H. Qed.
+Print Assumptions C22_limited_is_top_of_ranked.
+
+(** ---- 3. Streaming (limitSender): one stateful truncator applied to every batch returns, batch
+    by batch, exactly what a single truncation of the whole stream returns *)
+Theorem C22_stream_equals_concat : forall o bs outs,
+  trunc_stream o (init_state o) bs = Ok outs ->
+  truncate o (concat bs) = Ok (concat (map fst outs)).
+Proof. exact trunc_stream_concat. Qed.
+Print Assumptions C22_stream_equals_concat.
+
+(** ---- 4. A chunk shortened by the match limit (repaired code, /repo commit 185a3da).
+    Content made of the whole terminated lines [ls]; cutting to the first [k] ranges removes
+    n = (old last end line) - (new last end line) lines and leaves exactly the leading
+    |ls| - n whole lines, terminated: the lines of the remaining ranges plus as many trailing
+    context lines as the chunk had before. *)
+Theorem C22_chunk_trim_whole_lines : forall c ls k id e_new,
+  cm_content c = unlines ls -> Forall nl_free ls ->
+  1 <= k ->
+  nth_error (cm_ranges c) (k - 1) = Some (id, e_new) ->
+  (e_new <= last_end (cm_ranges c))%N ->
+  N.to_nat (last_end (cm_ranges c) - e_new) < length ls ->
+  cut_chunk c k =
+  Ok {| cm_content := unlines (firstn (length ls - N.to_nat (last_end (cm_ranges c) - e_new)) ls);
+        cm_ranges := firstn k (cm_ranges c); cm_sym := cm_sym c |}.
+Proof. exact cut_chunk_whole_lines. Qed.
+Print Assumptions C22_chunk_trim_whole_lines.
+
+(** in line numbers: a chunk covering lines F .. e_old + t keeps lines F .. e_new + t *)
+Corollary C22_chunk_trim_line_numbers : forall (ls : list (list N)) (F t e_old e_new : nat),
+  F <= e_new <= e_old -> length ls = e_old + t + 1 - F ->
+  length (firstn (length ls - (e_old - e_new)) ls) = e_new + t + 1 - F.
+Proof. intros ls F t e_old e_new H L. rewrite firstn_length. lia. Qed.
+Print Assumptions C22_chunk_trim_line_numbers.
+
+(** the chunk ends at an unterminated end of file (last line [l] without terminator) *)
+Theorem C22_chunk_trim_whole_lines_eof : forall c ls l k id e_new,
+  cm_content c = unlines ls ++ l -> Forall nl_free ls -> nl_free l -> l <> [] ->
+  1 <= k ->
+  nth_error (cm_ranges c) (k - 1) = Some (id, e_new) ->
+  (e_new < last_end (cm_ranges c))%N ->
+  N.to_nat (last_end (cm_ranges c) - e_new) <= length ls ->
+  cut_chunk c k =
+  Ok {| cm_content := removelast (unlines (firstn (length ls + 1 - N.to_nat (last_end (cm_ranges c) - e_new)) ls));
+        cm_ranges := firstn k (cm_ranges c); cm_sym := cm_sym c |}.
+Proof. exact cut_chunk_whole_lines_eof. Qed.
+Print Assumptions C22_chunk_trim_whole_lines_eof.
+
+(** the code before the repair violated the statement: the design-time witness
+    "x1\nx2\nx3\nx4\nzz\n", ranges ending on lines 1..4, cut to 1 range *)
+Definition w_lines : list (list N) := [[120;49];[120;50];[120;51];[120;52];[122;122]]%N.
+Theorem C22_chunk_trim_old_refuted :
+  trim_content_old (unlines w_lines) 3 <> Some (unlines (firstn (length w_lines - 3) w_lines)) /\
+  trim_content_old (unlines w_lines) 3 = Some [120;49;10;120;50;10;120;51]%N.
+Proof. split; [vm_compute; discriminate | vm_compute; reflexivity]. Qed.
+Print Assumptions C22_chunk_trim_old_refuted.
+
+(** ---- 5. KNOWN FINDING (open): the trailing context of a shortened chunk is the trailing context
+    the chunk had, not min(requested, available): a chunk clamped by the end of the file
+    ("m1\nm2\nx", ranges on lines 1 and 2, 2 context lines requested, only 1 available after line 2)
+    cut to 1 range keeps lines 1-2 although lines 1-3 = range + requested context are available. *)
+Definition w_eof : cmatch :=
+  {| cm_content := [109;49;10;109;50;10;120]%N; cm_ranges := [(1,1);(2,2)]%N; cm_sym := false |}.
+Theorem C22_chunk_requested_context_refuted :
+  exists c ctx_requested lines_available kept,
+    c = w_eof /\ ctx_requested = 2 /\ lines_available = 3 /\
+    cut_chunk c 1 = Ok kept /\
+    cm_content kept = [109;49;10;109;50]%N (* 2 lines *) /\
+    2 < Nat.min (1 + ctx_requested) lines_available.
+Proof.
+  exists w_eof, 2, 3. eexists. repeat split; try reflexivity. simpl. lia.
+Qed.
+Print Assumptions C22_chunk_requested_context_refuted.
+
+(** ---- 6. KNOWN FINDING (open): collectSender ranks and truncates after every chunk.  Full statement
+    that was to be proved:
+      forall o bs, collect o bs = batch o bs
+    It is false on the faithful model because the novel-extension promotion does not commute with
+    later chunks; witness (replayed on the implementation by the harness, case 0 of
+    TestVerifC22Collect): MaxMatchDisplayCount = 10, first chunk a.go 1000 (1 match), b.go 990 (1),
+    c.go 980 (3), d.py 950 (8); second chunk y.py 995 (1). *)
+Definition w_file (i : N) (s : Z) (e : N) (n : nat) : file :=
+  {| f_id := i; f_score := s; f_ext := e; f_lines := [{| lm_id := i; lm_frags := map N.of_nat (seq 0 n) |}]; f_chunks := [] |}.
+Definition w_batches : list (list file) :=
+  [[w_file 1 1000 0 1; w_file 2 990 0 1; w_file 3 980 0 3; w_file 4 950 1 8]; [w_file 5 995 1 1]].
+Definition w_opts : topts := {| o_doc := 0; o_match := 10; o_chunk := false |}.
+Theorem C22_incremental_equals_batch_refuted :
+  exists o bs r1 r2, collect o bs = Ok r1 /\ batch o bs = Ok r2 /\
+                     map f_id r1 = [1;5;2;4]%N /\ map f_id r2 = [1;5;2;3;4]%N.
+Proof. exists w_opts, w_batches. eexists. eexists. repeat split; vm_compute; reflexivity. Qed.
+Print Assumptions C22_incremental_equals_batch_refuted.
+
+(** what does hold for the collecting path: a single chunk, or no display limit, gives the batch result *)
+Theorem C22_collect_single_or_unlimited : forall o bs,
+  (exists b, bs = [b]) \/ has_limits o = false -> collect o bs = batch o bs.
+Proof.
+  intros o bs [[b ->]|HL]; unfold collect, batch; simpl.
+  - rewrite app_nil_r. destruct b as [|f b]; simpl.
+    + destruct (has_limits o) eqn:HL; [|reflexivity].
+      unfold sort_and_truncate. rewrite truncate_unfold. unfold sort_files, dlimit. simpl.
+      destruct (match_limited o), (doc_limited o); simpl; rewrite ?firstn_nil; reflexivity.
+    + destruct (has_limits o) eqn:HL; simpl; [|reflexivity].
+      destruct (sort_and_truncate o (f :: b)); reflexivity.
+  - rewrite HL. assert (E : forall agg, collect_sends o agg bs = Ok (agg ++ concat bs)).
+    { induction bs as [|b r IH]; intros agg; simpl; [now rewrite app_nil_r|].
+      unfold collect_send. rewrite HL. destruct b; simpl; [apply IH|]. rewrite IH. now rewrite <- app_assoc. }
+    rewrite E. reflexivity.
+Qed.
+Print Assumptions C22_collect_single_or_unlimited.
+
+(** ---- non-vacuity *)
+Definition ex_files : list file := [w_file 1 1000 0 2; w_file 2 990 0 3; w_file 3 980 1 2].
+Example ex_truncate : exists res, truncate {| o_doc := 2; o_match := 4; o_chunk := false |} ex_files = Ok res /\
+  map (fun f => length (units false f)) res = [2; 2].
+Proof. eexists. split; vm_compute; reflexivity. Qed.
+Example ex_stream : exists outs, trunc_stream w_opts (init_state w_opts) w_batches = Ok outs /\
+  map (fun p => length (fst p)) outs = [4; 0].
+Proof. eexists. split; vm_compute; reflexivity. Qed.
+Definition ex_chunk : cmatch :=
+  {| cm_content := unlines w_lines; cm_ranges := [(1,1);(2,2);(3,3);(4,4)]%N; cm_sym := false |}.
+Example ex_chunk_hyps :
+  cm_content ex_chunk = unlines w_lines /\ Forall nl_free w_lines /\
+  nth_error (cm_ranges ex_chunk) (1 - 1) = Some (1, 1)%N /\
+  N.to_nat (last_end (cm_ranges ex_chunk) - 1) < length w_lines /\
+  cut_chunk ex_chunk 1 = Ok {| cm_content := [120;49;10;120;50;10]%N; cm_ranges := [(1,1)]%N; cm_sym := false |}.
+Proof.
+  repeat split; try (vm_compute; reflexivity); try (vm_compute; lia).
+  repeat constructor; discriminate.
+Qed.
+Example ex_chunk_eof_hyps :
+  cm_content w_eof = unlines [[109;49];[109;50]]%N ++ [120]%N /\
+  cut_chunk w_eof 1 = Ok {| cm_content := [109;49;10;109;50]%N; cm_ranges := [(1,1)]%N; cm_sym := false |}.
+Proof. split; vm_compute; reflexivity. Qed.
